@@ -17,6 +17,25 @@ fn key_seeds(env: &Env) -> &'static Vec<(usize, [u8; 32])> {
     KEY_SEEDS.get_or_init(|| {
         let (a, b) = env.tier.pick((32, 16), (1500, 400));
         let v: Vec<(usize, [u8; 32])> = api::seed_list(env.seed, 0xC01, a).into_iter().map(|s| (512usize, s)).chain(api::seed_list(env.seed, 0xC01_1024, b).into_iter().map(|s| (1024usize, s))).collect();
+        // plus the seeds of C04's corpus on which key generation is delicate (a candidate whose f
+        // vanishes in one transform slot, runs of non-invertible candidates, F or G at the limit of
+        // its field): if such a key comes out wrong, its honest signatures do not verify
+        let mut v = v;
+        let dir = env.verif_dir.join("corpus").join("C04");
+        if let Ok(rd) = std::fs::read_dir(dir) {
+            let mut files: Vec<_> = rd.filter_map(|e| e.ok()).map(|e| e.path()).collect();
+            files.sort();
+            for f in files {
+                let name = f.file_name().map(|x| x.to_string_lossy().to_string()).unwrap_or_default();
+                if !(name.starts_with("root_") || name.starts_with("noninv_stream_run") || name.starts_with("fglimit_max128") || name.starts_with("fglimit_min128")) {
+                    continue;
+                }
+                let Ok(text) = std::fs::read_to_string(&f) else { continue };
+                let Ok(j) = serde_json::from_str::<serde_json::Value>(&text) else { continue };
+                let (Some(n), Some(seed)) = (j["case"]["n"].as_u64(), j["case"]["seed"].as_str().and_then(|h| seed_from(&Hex(crate::util::unhex(h).unwrap_or_default())))) else { continue };
+                v.push((n as usize, seed));
+            }
+        }
         api::warm(&v, env.workers);
         v
     })
